@@ -5,6 +5,9 @@ import re
 from .. import dataflow as df
 from ..facts import Site, op_local, const_int, short
 
+# both backends are already analysed from their own build shapes (the workspace shape has no fjall backend)
+WORKSPACE_PASS = False
+
 EXPLANATION = (
     "Static analysis over rustc's promoted MIR of both shipped backends (fjall from the RocksDB-free build shape, rocksdb from the full workspace shape). "
     "C11.a writer/reader agreement: in each backend the key bytes of WriteBatch::{put,delete}, SerializationBuffer::{put,delete} and get_wide_column are "
@@ -17,7 +20,7 @@ EXPLANATION = (
     "behaviour are NOT decided.")
 
 NOT_DECIDED = [
-    "numeric correctness of prefix_upper_bound and of varint encodings; behaviour after reopen; multi-kilobyte and 0xFF-heavy keys (values, not shapes)",
+    "numeric correctness of prefix_upper_bound beyond `the incremented bound is also cut` (C11.e) and of varint encodings; behaviour after reopen; multi-kilobyte and 0xFF-heavy keys (values, not shapes)",
     "that uncommitted batches are invisible and commits are atomic inside the third-party stores",
 ]
 ASSUMPTIONS = ["postcard encodings of keys are self-delimiting (C12.b)", "distinct columns have distinct StableTypeIDs (C14)"]
@@ -288,6 +291,49 @@ def discriminant_table(ctx, prog):
     ctx.notes.append("discriminant table: %s" % {short(c): [(short(t), list(v)) for t, v in l] for c, l in table.items()})
 
 
+SHRINK = r"Vec::<T(, A)?>::(truncate|pop|drain|split_off|resize|set_len|retain|clear)$"
+
+
+def upper_bound_tight(ctx, prog):
+    """RocksDB's member scan relies on the iterate-upper-bound alone (its iterator has no starts_with filter), so
+    the bound has to be the prefix successor: the prefix cut after its right-most byte < 0xFF, that byte + 1.  For a
+    prefix that ends in 0xFF the successor is strictly shorter than the prefix, hence on the path that increments a
+    byte the vector must also be shortened (or be built from a sub-slice).  Decides that necessary shape only."""
+    o = ctx.ob("C11.e", "rocksdb/scan-upper-bound-is-the-prefix-successor", "K2",
+               "the scan bound is cut after the incremented byte (or scan results are filtered by the prefix)")
+    itn = [x for x in prog.find(r"^<Scan(Member|Members)Iterator as Iterator>::next$") if "rocksdb" in x.file]
+    if len(itn) == 1 and itn[0].calls_to(r"::starts_with$"):
+        o.sites = 1
+        o.detail = "the scan iterator filters by starts_with: the bound is an optimisation only"
+        return
+    cands = [x for x in prog.by_name.get("Impl::prefix_upper_bound", []) if "rocksdb" in x.file]
+    if len(cands) != 1:
+        ctx.fail(o, "(program)", "anchor missing: rocksdb Impl::prefix_upper_bound")
+        return
+    b = ctx.touch(cands[0])
+    incs = []
+    for a in b.assigns(lambda st: st["rv"]["k"] == "bin" and st["rv"]["op"] in ("Add", "AddWithOverflow", "AddUnchecked") and const_int(st["rv"]["b"]) == 1):
+        pl = df.op_place(a.node["rv"]["a"])
+        if pl is not None and "*" in pl[1] and b.local_ty(pl[0]).replace(" ", "") in ("&mutu8", "&'_mutu8"):
+            incs.append(a)
+    wraps = b.calls_to(r"u8>::(wrapping_add|checked_add|saturating_add|overflowing_add)$")
+    shr = b.calls_to(SHRINK)
+    # a bound built from a sub-slice of the prefix: Index::index(.., RangeTo / RangeToInclusive / Range)
+    sub = [s_ for s_ in b.calls_to(r"Index::index$") if re.search(r"Range", " ".join(s_.node["fn"].get("gargs", [])) + (s_.node["fn"].get("res_key") or ""))]
+    o.sites = len(incs) + len(shr) + len(sub)
+    if not incs and not wraps:
+        ctx.fail(o, Site(b, 0, 0), "cannot find where prefix_upper_bound increments a byte — the rule cannot be evaluated; failing closed")
+        return
+    for a in incs + wraps:
+        ok = False
+        for s_ in shr + sub:
+            if s_.bb == a.bb or a.bb in b.reachable([s_.bb]) or s_.bb in b.reachable([a.bb]):
+                ok = True
+        if not ok:
+            ctx.fail(o, a, "prefix_upper_bound increments a byte but never shortens the bound on that path: for a prefix ending in 0xFF the bound "
+                           "`P'++[b+1]++[0xFF..]` admits the members of the neighbouring key `P'++[b+1]..` into the scan of this key")
+
+
 def run(ctx):
     prog = ctx.prog
     ctx.run_clause("C11.a", lambda c: backend_rules(c, prog, "Fjall", "Fjall", "fjall", "fjall"))
@@ -297,3 +343,4 @@ def run(ctx):
     except Exception as e:  # EngineError is reported by the caller
         raise
     ctx.run_clause("C11.a", lambda c: backend_rules(c, rocks, "RocksDB", "RocksDB", "rocksdb", "rocksdb"))
+    ctx.run_clause("C11.e", lambda c: upper_bound_tight(c, rocks))
